@@ -62,6 +62,7 @@ structure Obs where
   u2     : List Usage := []
   u1api  : List Usage := []
   u2api  : List Usage := []
+  alist  : String := ""
 
 def parseObs (kv : List (String × String)) : Option Obs := do
   let bal ← getNatList kv "bal"
@@ -76,7 +77,8 @@ def parseObs (kv : List (String × String)) : Option Obs := do
   let u2 ← (← getColonList kv "u2").mapM usage8
   let u1api ← (← getColonList kv "u1api").mapM usage8
   let u2api ← (← getColonList kv "u2api").mapM usage8
-  pure { bal, sbal, mbal, mact, naccts, ssum, f1, f2, u1, u2, u1api, u2api }
+  let alist := (getStr kv "alist").getD ""
+  pure { bal, sbal, mbal, mact, naccts, ssum, f1, f2, u1, u2, u1api, u2api, alist }
 
 /-! ### rendering the model state in the harness' format -/
 
@@ -206,6 +208,8 @@ def drift (o : Obs) : Int := (o.mbal : Int) - (o.ssum : Int)
 /-- clauses that are predicates of a single snapshot (plus bookkeeping): reported at the
 operation that makes them false -/
 def stateMonitors (dp d : DState) (p o : Obs) (op : String) (resOk : Bool) : List Verdict :=
+  let v0 := if o.alist == "" || o.alist == toString o.naccts || (p.alist != "" && p.alist != toString p.naccts) then [] else
+    [Verdict.monitor "accounts_listing" s!"Store.Accounts={o.alist},account_rows={o.naccts}"]
   let v1 := if drift o == drift p then [] else
     [Verdict.monitor "metrics_eq/accountBalance" s!"metric={o.mbal},sum_of_balances={o.ssum},before:metric={p.mbal},sum={p.ssum}"]
   let v2 := if o.mact == o.naccts || p.mact != p.naccts then [] else
@@ -226,7 +230,7 @@ def stateMonitors (dp d : DState) (p o : Obs) (op : String) (resOk : Bool) : Lis
                 else if op == "budget" && !resOk then "failed_reservation_refunds"
                 else "reservation_eq"
       some (Verdict.monitor nm s!"account={a},manager={nth o.bal a},store={nth o.sbal a},reserved={iResv d.ibud a}")
-  v1 ++ v2 ++ v3 ++ v4 ++ v5 ++ v6
+  v0 ++ v1 ++ v2 ++ v3 ++ v4 ++ v5 ++ v6
 
 /-- per-contract conservation across a debit: unspent funding + revenue unchanged -/
 def conservedMonitor (p o : Obs) (v2 api : Bool) (registry : Nat) : List Verdict :=
